@@ -313,6 +313,8 @@ class Engine:
         if args.kwarg:
             st.env[args.kwarg.arg] = Ref('kwargs')
             st.locs['kwargs'] = DictC({})
+        if args.vararg:
+            st.env[args.vararg.arg] = ()
         for k, v in c.ghost_init.items():
             st.ghost[k] = v(View(st, self)) if callable(v) else v
         for name, fn in c.requires:
@@ -1206,7 +1208,33 @@ class Engine:
             return (n + idx) if idx < 0 else z3.IntVal(idx)
         return to_z3(idx)
 
+    def project(self, sl):
+        """row projection of 2-D history arrays: x[:, j] -> x[j], x[:, None] -> x (one arbitrary device row)"""
+        if getattr(self.c, 'row_projection', False) and isinstance(sl, ast.Tuple) and len(sl.elts) == 2 and \
+                isinstance(sl.elts[0], ast.Slice) and sl.elts[0].lower is None and sl.elts[0].upper is None:
+            return sl.elts[1]
+        return sl
+
     def load_sub(self, base, sl, st):
+        sl = self.project(sl)
+        if isinstance(sl, ast.Constant) and sl.value is None and getattr(self.c, 'row_projection', False):
+            return base          # x[:, None] on a projected scalar
+        if isinstance(base, tuple) and len(base) == 2 and base[0] == 'objdict':
+            key = self.ev(sl, st)
+            if isinstance(key, str):
+                return self.getattr(base[1], key, st)
+            raise Unsupported('__dict__ lookup with symbolic key')
+        if isinstance(base, NR) and getattr(self.c, 'row_projection', False):
+            return base
+        if isinstance(base, Ref) and isinstance(st.content(base), ArrC) and not isinstance(sl, ast.Slice):
+            iv = self.ev(sl, st)
+            mask = None
+            if isinstance(iv, tuple) and len(iv) == 2 and iv[0] == 'where-mask':
+                mask = iv[1]
+            elif isinstance(iv, Ref) and isinstance(st.content(iv), ArrC):
+                mask = iv
+            if mask is not None:
+                return ('masked-view', base, mask)
         if isinstance(base, Ref):
             c = st.content(base)
             if isinstance(c, ListC):
@@ -1259,6 +1287,13 @@ class Engine:
         raise Unsupported('subscript load on %r' % (base,))
 
     def store_sub(self, base, sl, value, st):
+        sl = self.project(sl)
+        if isinstance(base, tuple) and len(base) == 2 and base[0] == 'objdict':
+            key = self.ev(sl, st)
+            if isinstance(key, str):
+                st.store(base[1].path + '.' + key, value)
+                return
+            raise Unsupported('__dict__ store with symbolic key')
         if isinstance(base, Ref):
             c = st.content(base)
             if isinstance(c, ListC):
@@ -1286,11 +1321,21 @@ class Engine:
                     mask = iv        # boolean-mask indexing (masks are 0/1 arrays here)
                 if mask is not None:
                     mc = st.content(mask)
-                    x = as_real(value)
                     k = fresh('k', I)
                     sel = z3.Or(mc.nan_at(k), mc.vals[k] != 0)
-                    vals = z3.Lambda([k], z3.If(sel, x.val, c.vals[k]))
-                    nans = None if (c.nans is None and x.nan is False) else z3.Lambda([k], z3.If(sel, x.nanz(), c.nan_at(k)))
+                    if isinstance(value, tuple) and len(value) == 3 and value[0] == 'masked-view':
+                        # a[mask] = b[mask]: element-wise under the same mask
+                        if value[2].loc != mask.loc:
+                            raise Unsupported('masked assignment with a different mask on the right-hand side')
+                        src = st.content(value[1])
+                        vals = z3.Lambda([k], z3.If(sel, src.vals[k], c.vals[k]))
+                        nans = None if (c.nans is None and src.nans is None) else \
+                            z3.Lambda([k], z3.If(sel, src.nan_at(k), c.nan_at(k)))
+                    else:
+                        x = as_real(value)
+                        vals = z3.Lambda([k], z3.If(sel, x.val, c.vals[k]))
+                        nans = None if (c.nans is None and x.nan is False) else \
+                            z3.Lambda([k], z3.If(sel, x.nanz(), c.nan_at(k)))
                     st.set_content(base, ArrC(vals, c.n, nans))
                     return
             if isinstance(c, ArrC):
@@ -1365,6 +1410,8 @@ class Engine:
                 return len(c.items) > 0
             if isinstance(c, SeqC):
                 return c.n > 0
+            if isinstance(c, ArrC) and z3.is_int_value(c.n) and c.n.as_long() == 1:
+                return z3.Or(c.nan_at(0), c.vals[0] != 0)
             raise Unsupported('truth value of an array')
         if z3.is_expr(v):
             if z3.is_bool(v):
@@ -1445,6 +1492,14 @@ class Engine:
             if isinstance(c, bool):
                 return self.ev(n.body if c else n.orelse, st)
             a, b = self.ev(n.body, st), self.ev(n.orelse, st)
+            if isinstance(a, Ref) and isinstance(b, Ref):
+                ca, cb = st.content(a), st.content(b)
+                if isinstance(ca, ArrC) and isinstance(cb, ArrC):
+                    anyn = ca.nans is not None or cb.nans is not None
+                    kf = z3.K(I, z3.BoolVal(False))
+                    return st.new_ref(ArrC(z3.If(c, ca.vals, cb.vals), z3.If(c, ca.n, cb.n),
+                                           z3.If(c, ca.nans if ca.nans is not None else kf,
+                                                 cb.nans if cb.nans is not None else kf) if anyn else None), 'ifexp')
             return self.ite(c, a, b)
         if isinstance(n, ast.Call):
             if self.is_pure_call(n):
@@ -1462,6 +1517,25 @@ class Engine:
         if isinstance(n, ast.Dict):
             return st.new_ref(DictC({self.ev(k, st): self.ev(v, st) for k, v in zip(n.keys, n.values)}), 'dict')
         if isinstance(n, ast.JoinedStr):
+            parts = []
+            for v in n.values:
+                if isinstance(v, ast.Constant):
+                    parts.append(str(v.value))
+                elif isinstance(v, ast.FormattedValue) and v.format_spec is None and v.conversion == -1:
+                    try:
+                        x = self.ev(v.value, st)
+                    except Unsupported:
+                        x = None
+                    if isinstance(x, (str, int)) and not isinstance(x, bool):
+                        parts.append(str(x))
+                    else:
+                        parts = None
+                        break
+                else:
+                    parts = None
+                    break
+            if parts is not None:
+                return ''.join(parts)
             return Opaque(fresh('fstr', TStr.sort))
         if isinstance(n, ast.Slice):
             return n
@@ -1486,6 +1560,8 @@ class Engine:
         return r
 
     def getattr(self, base, attr, st, node=None):
+        if isinstance(base, Obj) and attr == '__dict__':
+            return ('objdict', base)
         if isinstance(base, Obj):
             path = st.canon(base.path + '.' + attr)
             if st.has(path):
@@ -1720,10 +1796,7 @@ class Engine:
         if isinstance(fnode, ast.Attribute):
             base = self.ev(fnode.value, st)
             name = fnode.attr
-            args = [self.ev(a, st) for a in node.args if not isinstance(a, ast.Starred)]
-            if any(isinstance(a, ast.Starred) for a in node.args):
-                raise Unsupported('star-args call')
-            kwargs = {k.arg: self.ev(k.value, st) for k in node.keywords if k.arg}
+            args, kwargs = self.call_args(node, st)
             if isinstance(base, Obj):
                 key = st.canon(base.path + '.' + name)
                 h = self.lookup(key)
@@ -1747,9 +1820,30 @@ class Engine:
                 return h(self, st, args, kwargs, node)
             return self.method_on_value(base, name, args, kwargs, st, node)
         f = self.ev(fnode, st)
-        args = [self.ev(a, st) for a in node.args]
-        kwargs = {k.arg: self.ev(k.value, st) for k in node.keywords if k.arg}
+        args, kwargs = self.call_args(node, st)
         return self.call_value(f, args, kwargs, st, node)
+
+    def call_args(self, node, st):
+        args = []
+        for a in node.args:
+            if isinstance(a, ast.Starred):
+                v = self.ev(a.value, st)
+                if not isinstance(v, tuple):
+                    raise Unsupported('star-args of a non-tuple')
+                args.extend(v)
+            else:
+                args.append(self.ev(a, st))
+        kwargs = {}
+        for k in node.keywords:
+            if k.arg:
+                kwargs[k.arg] = self.ev(k.value, st)
+            else:
+                v = self.ev(k.value, st)
+                if isinstance(v, Ref) and isinstance(st.content(v), DictC):
+                    kwargs.update(st.content(v).items)
+                else:
+                    raise Unsupported('**kwargs of a non-dict')
+        return args, kwargs
 
     def lookup(self, key):
         if key in self.c.calls:
@@ -1930,6 +2024,8 @@ def _len(ex, st, args, kw, node):
             return len(c.items)
         if isinstance(c, DictC):
             return len(c.items)
+        if z3.is_int_value(c.n):
+            return c.n.as_long()
         return c.n
     h = ex.lookup('len')
     raise Unsupported('len of %r' % (v,))
